@@ -293,4 +293,32 @@ theorem attrLoop (fn : String) (cal) (S : Store) (k : String) : ∀ (as : List (
       simp [rangeLoop, sbindAll, sbind, sdefine, fset, spop, h] at step ih' ⊢
       simp [step, ih']
 
+@[simp] theorem flatten_attrV (k : String) (c : Bool) (t : Nat) : flatten [attrV k c t] = [attrV k c t] := rfl
+
+/-- `ExtendedAttribute(key)`: the first attribute of the list with that text key, or the
+    zero `Attribute` and an error -/
+theorem ExtendedAttribute_eq (n : Nat) (scheme : String) (st : Int) (as : List (String × Bool × Nat)) (k : String) :
+    sem noPrims afuncs (n + 1) "SignerInfo.ExtendedAttribute"
+        [signerInfoV scheme st (as.map (fun a => attrV a.1 a.2.1 a.2.2)), .str k]
+      = some (match as.find? (fun a => a.1 == k) with
+          | some a => .tuple [attrV a.1 a.2.1 a.2.2, .nil]
+          | none => .tuple [.obj [], .err "SignerInfo.ExtendedAttribute" 0 []]) := by
+  rw [sem_succ]
+  have hfind : afuncs.find? (fun f => f.name == "SignerInfo.ExtendedAttribute") = some signature_SignerInfo_ExtendedAttribute := rfl
+  rw [hfind]
+  have key := attrLoop (S0 := signerInfoV scheme st (as.map (fun a => attrV a.1 a.2.1 a.2.2)))
+    "SignerInfo.ExtendedAttribute" (sem noPrims afuncs n) _ k as 0 rfl
+  simp only [attrBody, rangeBody, signature_SignerInfo_ExtendedAttribute, List.getD_cons_succ, List.getD_cons_zero] at key
+  simp [run, pack, execBlock, exec, eval, evalArgs, sbindAll, sbind, sdefine, fset, sget, fget, spop, binop, builtin, field,
+    signerInfoV, noPrims] at key
+  cases hf : as.find? (fun a => a.1 == k) with
+  | none =>
+    rw [hf] at key
+    simp [signature_SignerInfo_ExtendedAttribute, run, pack, execBlock, exec, eval, evalArgs, sbindAll, sbind, sdefine, fset, sget, fget,
+      spop, binop, builtin, field, signerInfoV, noPrims, key]
+  | some a =>
+    rw [hf] at key
+    simp [signature_SignerInfo_ExtendedAttribute, run, pack, execBlock, exec, eval, evalArgs, sbindAll, sbind, sdefine, fset, sget, fget,
+      spop, binop, builtin, field, signerInfoV, noPrims, key]
+
 end NotationCore.Tie.Code.Signature
